@@ -1,6 +1,7 @@
 import Uquic.Oracle.Frame
 import Uquic.Model.UQuic.Dial
 import Uquic.Spec.DialMon
+import Uquic.Model.UQuic.DialIdle
 
 open Uquic.Oracle Uquic.Model.UQuic.Dial Uquic.Spec.DialMon
 
@@ -42,8 +43,25 @@ structure DAcc where
   fails : List Fail := []
   nS : Nat := 0
 
-/-- no crash of the dialing process is a listed finding any more (the fixed-layout probe panic is fixed by 059c38c) -/
-def panicKnown (_der _faults _cls : String) : String := "-"
+/-- The one crash of the dialing process that is a LISTED finding (C02-spec-initial-coalesced-behind-padding): an index
+    panic when the server answered with a HelloRetryRequest, datagrams were lost or late, and the spec's datagram floor
+    (Firefox: 1357, or a derived `min:`) leaves no room behind a padded Initial packet. (The fixed-layout probe panic
+    is fixed by 059c38c and no longer listed.) -/
+def panicKnown (base der faults stls cls : String) : String :=
+  if cls == "index" && stls == "hrr" && faults ≠ "-" &&
+     (base.startsWith "F116" || (derTokens der).any (·.startsWith "min:")) then "initial_coalesced_behind_padding" else "-"
+
+/-- the wire-trace facts about the client's Initial CRYPTO stream(s) of a dial: monitor + prediction.
+    A stream offset never carries two different bytes; when the dial succeeded the stream has no hole. -/
+def cryptoJudge (who : String) (t : List String) (implOut : String) : String × List Fail :=
+  let cry := (getKV t "cry").getD "ok"
+  let fails : List Fail :=
+    if cry.startsWith "conflict" then
+      [("crypto_stream_consistent", "-", s!"{who}: the client's Initial CRYPTO frames carry two different bytes for one stream offset ({cry}): a later handshake message was not sent at the offset the stream had reached")]
+    else if implOut == "ok" && cry.startsWith "gap" then
+      [("crypto_stream_consistent", "-", s!"{who}: the handshake completed although the client's Initial CRYPTO stream on the wire has a hole ({cry})")]
+    else []
+  (if implOut ≠ "ok" && cry.startsWith "gap" then cry else "ok", fails)
 
 def stepDial (op impl : String) : StepOut := Id.run do
   let a := opKV op
@@ -52,6 +70,8 @@ def stepDial (op impl : String) : StepOut := Id.run do
   let faults := (getKV a "faults").getD "-"
   let fresh := getKV a "fresh" == some "1"
   let srv := (getKV a "srv").getD "def"
+  let stls := (getKV a "stls").getD "def"
+  let pauseMs : Option Int := (getKV a "pause").bind String.toInt?
   let wf := opWellFormed der
   let faulty := faults ≠ "-"
   let noqtp := (derTokens der).contains "noqtp"
@@ -62,7 +82,7 @@ def stepDial (op impl : String) : StepOut := Id.run do
       return { model := "PANIC:no_qtp", tags := ["dial:panic_no_qtp"] }
     -- the model does not cover the packer; a crash that is a LISTED finding is echoed (the monitor still reports it),
     -- any other crash is also a correspondence break
-    let known := panicKnown der faults cls
+    let known := panicKnown base der faults ((getKV a "stls").getD "def") cls
     return { model := if known == "-" then "ok-sections" else impl, tags := ["dial:PANIC"],
              fails := [("no_panic", known, s!"the dialing process panicked ({cls}) der={der} faults={faults}")] }
   if impl == "hang-real" then
@@ -142,9 +162,34 @@ def stepDial (op impl : String) : StepOut := Id.run do
       -- after the echo the server opens every stream the client advertised room for; all of them arrive
       let mu := (getKV acc.s0 "mu").getD "0"; let mb := (getKV acc.s0 "mb").getD "0"
       let predFan := s!"u{mu}/{mu},b{mb}/{mb}"
-      let t' := setKV (setKV (setKV (setKV t "adv" predAdv) "own" predOwn) "out" predOut) "fan" predFan
+      let mut t' := setKV (setKV (setKV (setKV t "adv" predAdv) "own" predOwn) "out" predOut) "fan" predFan
       -- monitors on the implementation's behaviour
       let mut fails : List Fail := []
+      -- the Initial CRYPTO stream on the wire; a server that only takes P-384 makes every client send a second ClientHello
+      let (predCry, cfails) := cryptoJudge s!"dial {i} base={base} der={der} srv={srv} stls={stls} faults={faults}" t implOut
+      fails := fails ++ cfails
+      let predNch := if implOut == "ok" && predOut == "ok" then (if stls == "hrr" then "2" else "1") else (getKV t "nch").getD "0"
+      t' := setKV (setKV (setKV t' "cry" predCry) "nch" predNch) "undec" "0"
+      if implOut == "ok" && getKV t "nch" == some "2" then
+        tags := tags ++ ["dial:hello_retry"] ++ (if srv == "retry" || srv == "v2retry" then ["dial:hello_retry_after_retry"] else [])
+          ++ (if (derTokens der).any (fun x => x.startsWith "fb:flight" || x.startsWith "fb:rflight") then ["dial:hello_retry_planned_flight"] else [])
+      -- the connection left unused for a while, then used again
+      match pauseMs, getKV t "e2" with
+      | some p, some e2 =>
+        let ends : Uquic.Model.UQuic.DialIdle.Ends :=
+          { cConf := 30000 * Uquic.Model.UQuic.DialIdle.msNs, cAdv := ((getKV t "cidle").getD "-1").toInt?.getD (-1),
+            sOwn := (((getKV t "sidle").getD "30000").toInt?.getD 30000) * Uquic.Model.UQuic.DialIdle.msNs }
+        let keepAlive := srv == "dgram"
+        if Uquic.Model.UQuic.DialIdle.survives ends p then
+          t' := setKV t' "e2" "ok"
+          tags := tags ++ ["dial:pause_survives"] ++ (if ends.cAdv < 0 then ["dial:pause_no_client_limit"] else [])
+          if e2 ≠ "ok" then
+            fails := fails ++ [("survives_idle_pause", "-", s!"dial {i} base={base} der={der} srv={srv}: the connection was unused for {p} ms, less than every idle timeout in force (client advertised {ends.cAdv} ms, server {ends.sAdv} ms: {ends.both / Uquic.Model.UQuic.DialIdle.msNs} ms), and did not move data afterwards: {(getKV t "e2d").getD "?"}")]
+        else if !keepAlive && Uquic.Model.UQuic.DialIdle.dies ends p then
+          t' := setKV t' "e2" "dead"
+          tags := tags ++ ["dial:pause_outlasts_timeout"]
+        else tags := tags ++ ["dial:pause_near_timeout"]
+      | _, _ => pure ()
       if implOut == "hang" then
         fails := fails ++ [("no_hang", "-", s!"dial {i} still pending after 60 s of virtual time")]
       else if wf && implOut ≠ "ok" then
@@ -216,6 +261,7 @@ def stepCmp (_op impl : String) : StepOut := Id.run do
   if g aT "out" ≠ g bT "out" then
     fails := fails ++ [("nil_spec_is_plain", "-", s!"outcomes differ: Transport {g aT "out"}, UTransport without spec {g bT "out"}")]
   for (nm, t) in [("Transport", aT), ("UTransport(nil)", bT)] do
+    fails := fails ++ (cryptoJudge nm t (g t "out")).2
     if g t "out" == "hang" then fails := fails ++ [("no_hang", "-", s!"{nm}: dial pending after 60 s of virtual time")]
     else if g t "out" ≠ "ok" then fails := fails ++ [("first_dial_succeeds", "-", s!"{nm} without a spec: {g t "out"}")]
     else if !(dataOK (g t "up") && dataOK (g t "down")) then
@@ -224,11 +270,11 @@ def stepCmp (_op impl : String) : StepOut := Id.run do
   let firstDraw (t : List String) := ((g t "hscids").splitOn ",").headD "?"
   if firstDraw aT ≠ firstDraw bT then
     fails := fails ++ [("nil_spec_is_plain", "-", s!"source connection ID: Transport {firstDraw aT}, UTransport without spec {firstDraw bT}")]
-  for k in ["dcidlen", "toklen", "v", "alpn"] do
+  for k in ["dcidlen", "toklen", "v", "alpn", "nch"] do
     if g aT k ≠ g bT k then
       fails := fails ++ [("nil_spec_is_plain", "-", s!"{k}: Transport {g aT k}, UTransport without spec {g bT k}")]
   let ccfg := (getKV (opKV _op) "ccfg").getD "?"
-  return { model := renderSecs out, tags := ["cmp:run", s!"cmp:ccfg_{ccfg}"] ++ (if same then ["cmp:same"] else []), fails := fails }
+  return { model := renderSecs out, tags := ["cmp:run", s!"cmp:ccfg_{ccfg}"] ++ (if same then ["cmp:same"] else []) ++ (if g aT "nch" == "2" then ["cmp:hello_retry"] else []), fails := fails }
 
 def step (_ : Unit) (op impl : String) : Unit × StepOut :=
   match Uquic.Spec.DialMon.words op with
